@@ -262,10 +262,20 @@ Fixpoint exec (p : list cmd) (σ : st) : option st :=
 Lemma exec_app p q σ : exec (p ++ q) σ = match exec p σ with Some σ' => exec q σ' | None => None end.
 Proof. revert σ; induction p; cbn; intros; auto. destruct (exec1 a σ); auto. Qed.
 
-(* locations below `base` whose cell differs between two stores: the write-set *)
+(* locations below `base` whose cell differs between two stores: the write-set.  The value
+   held by an array cell can never change (the only command that rewrites an array cell is
+   a donation, which keeps the value), so array cells are compared by their `donated` flag;
+   comparing the values themselves would cost time exponential in the number of rounds
+   (values are terms that mention the previous round's values several times). *)
+Definition cell_same (a b : cell) : bool :=
+  match a, b with
+  | CArr _ d, CArr _ d' => Bool.eqb d d'
+  | _, _ => cell_eqb a b
+  end.
+
 Definition written (base : nat) (s s' : store) : list nat :=
   filter (fun l => match nth_error s l, nth_error s' l with
-                   | Some a, Some b => negb (cell_eqb a b)
+                   | Some a, Some b => negb (cell_same a b)
                    | None, None => false
                    | _, _ => true end) (seq 0 base).
 
@@ -429,9 +439,11 @@ Proof.
   intros H. unfold written.
   assert (G : forall idx, Forall (fun l => l < base) idx ->
      filter (fun l => match nth_error s l, nth_error s' l with
-                   | Some a, Some b => negb (cell_eqb a b) | None, None => false | _, _ => true end) idx = []).
-  { induction idx; cbn; intros F; auto. inversion F; subst. rewrite (H _ H2).
-    destruct (nth_error s a); cbn; rewrite ?cell_eqb_refl; cbn; auto. }
+                   | Some a, Some b => negb (cell_same a b) | None, None => false | _, _ => true end) idx = []).
+  { assert (SR : forall c, cell_same c c = true).
+    { intros c. pose proof (cell_eqb_refl c) as Q. destruct c; cbn in *; auto. destruct donated; reflexivity. }
+    induction idx; cbn; intros F; auto. inversion F; subst. rewrite (H _ H2).
+    destruct (nth_error s a); cbn; rewrite ?SR; cbn; auto. }
   apply G. apply Forall_forall. intros x Hx. apply in_seq in Hx. lia.
 Qed.
 
